@@ -5,11 +5,13 @@ import UpfVerif.Driver.Drv
 import UpfVerif.Driver.Ctl
 import UpfVerif.Driver.CtlProps
 import UpfVerif.Driver.Perio
+import UpfVerif.Driver.Config
 open UpfVerif UpfVerif.Driver
 
 /-- stateless evaluators, by function name -/
 def evalT (fn : String) (args : List String) (impl : String) : Option Verdict :=
   if fn.startsWith "drv." then Drv.eval fn args impl else
+  if fn.startsWith "cfg." then ConfigD.eval fn args impl else
   match fn with
   | "gtpu.encode" => evalGtpu args impl
   | "fd.parse" => evalFlowDesc args impl
